@@ -35,6 +35,8 @@ inductive Scalar where
   /-- `sizeof(t<uint>(1u))` for a function template `t`: a constant expression with the value 4 whose type check
       instantiates `t` (the instantiated function stays in the module) -/
   | sizeofInst (template : String)
+  /-- a well-typed expression that is not a constant expression (a member of a groupshared variable) -/
+  | nonConst
   /-- `{ }` used where a scalar is expected -/
   | emptyAgg
   deriving DecidableEq, Repr
@@ -183,6 +185,7 @@ def extractUint32 (s : Scalar) (path : Nat) : Except Err Nat :=
   | .num n => if n ≤ 4294967295 then .ok n else .error ⟨.requiresInteger, path⟩
   | .bool b => .ok (if b then 1 else 0)
   | .sizeofInst _ => .ok 4
+  | .nonConst => .error ⟨.requiresInteger, path⟩
   | .neg _ => .error ⟨.requiresInteger, path⟩
   | .float _ => .error ⟨.requiresInteger, path⟩
   | .emptyAgg => .error ⟨.requiresInteger, path⟩
